@@ -645,6 +645,11 @@ def main():
     thorough = core.tier() == 'thorough'
     scope = json.load(open(SCOPE)) if os.path.exists(SCOPE) else {}
     claimed = {(sc, mn, vn) for sc, d in scope.items() for mn, mv in d.items() for vn, st in mv.items() if st == 'unsat' or (thorough and st == 'unsat-slow')}
+    # known findings of this property are evaluated like claimed obligations (region "<model>.<var> [<scenario>]")
+    for k in ck.known:
+        if k.get('kind') == 'known' and k.get('harness') == 'equilibrium':
+            mv, sc = k['region'].split(' [')
+            claimed.add((sc.rstrip(']'), mv.split('.')[0], mv.split('.')[1]))
     timeout = 30000 if thorough else 8000
     jobs = []
     for sc in SCENARIOS:
@@ -668,7 +673,7 @@ def main():
         elif x['status'] == 'sat' and key in claimed:
             if x.get('residual') is not None and x['residual'] > 1e-7:
                 ck.ob('equilibrium', name, 'sat-replayed', x.get('secs', 0))
-                ck.violation('equilibrium', f"{x['model']}.{x['var']}",
+                ck.violation('equilibrium', f"{x['model']}.{x['var']} [{key[0]}]",
                              f"{x['model']}: the initial values do not annihilate the equation of {x['var']}: residual {x['residual']:.6g} "
                              f"on the generated code", dict(model=x['model'], var=x['var'], residual=x['residual'], values=x.get('replay_values')))
             else:
@@ -676,7 +681,7 @@ def main():
         elif x['status'] == 'unknown' and key in claimed and x.get('residual') is not None and x['residual'] > 1e-7:
             # the solver could not decide a claimed obligation; the generic candidate point reproduces a non-zero residual on the real code
             ck.ob('equilibrium', name, 'sat-replayed', x.get('secs', 0))
-            ck.violation('equilibrium', f"{x['model']}.{x['var']}",
+            ck.violation('equilibrium', f"{x['model']}.{x['var']} [{key[0]}]",
                          f"{x['model']}: the initial values do not annihilate {x['var']} at a generic point (documented default parameters): "
                          f"residual {x['residual']:.6g} on the generated code", dict(model=x['model'], var=x['var'], residual=x['residual'], values=x.get('replay_values')))
         elif x['status'] in ('sat', 'unknown'):
